@@ -5,3 +5,9 @@ import J1939.Props.C02
 #print axioms J1939.Props.C02.c02_accept_takes_one
 #print axioms J1939.Props.C02.c02_notify_keeps_pools
 #print axioms J1939.Props.C02.c02_capacity
+#print axioms J1939.Props.C02.c02_chunks_get
+#print axioms J1939.Props.C02.c02_chunks_concat
+#print axioms J1939.Props.C02.ins4
+#print axioms J1939.Props.C02.dt22_data
+#print axioms J1939.Props.C02.c02_built_frame_is_segframe
+#print axioms J1939.Props.C02.c02_reception_exact
